@@ -28,6 +28,7 @@ pub fn eval_request(st: &mut State, req: &str) -> Option<Obs> {
         ["pn", rest @ ..] => scan::eval_pn(&mut st.tables, rest),
         #[cfg(feature = "std")]
         ["pp", rest @ ..] => poll::eval_pp(&mut st.ptables, rest),
+        ["cnpred", n] => scan::cnpred_obs(n.parse().ok()?),
         ["enc14", which, c, n, v] => Some(scan::enc14_obs(which, c.parse().ok()?, n.parse().ok()?, v.parse().ok()?)),
         ["encpn", which, i, c, n, v, order] => Some(scan::encpn_obs(which, i.parse().ok()?, c.parse().ok()?, n.parse().ok()?, v.parse().ok()?, *order == "lsb")),
         ["msg", which, s, d1, d2] => {
@@ -107,6 +108,10 @@ impl<'a> Out<'a> {
     /// a verdict computed here on the real code (must be 1); `detail` must not contain " | "
     pub fn oracle(&mut self, name: &str, detail: &str, ok: bool) {
         writeln!(self.w, "oracle {} {} | {}", name, detail, ok as i64).unwrap();
+    }
+    /// a line computed by a generator itself (request and implementation cells)
+    pub fn raw(&mut self, line: &str) {
+        writeln!(self.w, "{}", line).unwrap();
     }
     pub fn stat(&mut self, k: &str, v: u64) {
         writeln!(self.w, "#STAT {}={}", k, v).unwrap();
@@ -296,6 +301,33 @@ fn main() {
         }
         #[cfg(feature = "std")]
         "pp-random" => { let (h, l) = if tier == "thorough" { (60_000, 80) } else { (6_000, 60) }; poll::random_histories(&mut out, seed, h, l); }
+        #[cfg(feature = "std")]
+        "pp-sentences" => { let (u, r, l) = if tier == "thorough" { (5, 4, 60_000) } else { (3, 4, 3_000) }; poll::sentences(&mut out, seed, u, r, l); }
+        #[cfg(feature = "std")]
+        "pp-directed" => poll::directed(&mut out, seed, if tier == "thorough" { 600_000 } else { 30_000 }),
+        #[cfg(feature = "std")]
+        "pp-roundtrip" => poll::roundtrips(&mut out, seed, if tier == "thorough" { 1_000_000 } else { 60_000 }),
+        #[cfg(feature = "std")]
+        "pp-isolation" => {
+            // every ordered pair of channels gets its own two-channel interleavings, then all 16 channels together
+            let (h, l) = if tier == "thorough" { (40, 120) } else { (4, 60) };
+            for a in 0..16u32 { for b in 0..16u32 { if a != b { poll::isolation(&mut out, seed ^ ((a * 16 + b) as u64), h, l, Some((a, b))); } } }
+            poll::isolation(&mut out, seed, if tier == "thorough" { 20_000 } else { 1_000 }, 80, None);
+        }
+        "cc-isolation" | "pn-isolation" => {
+            let kind = &sub[..2];
+            let (h, l) = if tier == "thorough" { (40, 120) } else { (4, 60) };
+            for a in 0..16u32 { for b in 0..16u32 { if a != b { scan::isolation(&mut out, kind, seed ^ ((a * 16 + b) as u64), h, l, Some((a, b))); } } }
+            scan::isolation(&mut out, kind, seed, if tier == "thorough" { 20_000 } else { 1_000 }, 80, None);
+        }
+        "cc-transparent" => scan::transparent(&mut out, "cc", &[if tier == "thorough" { 15 } else { 0 }]),
+        "pn-transparent" => scan::transparent(&mut out, "pn", &[if tier == "thorough" { 15 } else { 0 }]),
+        "cnpred-lines" => {
+            for n in 0..128 { out.req(&format!("cnpred {}", n)); }
+            for i in 0..gen_conv::controller_constants().len() { out.req(&format!("cnconst {}", i)); }
+            out.stat("evaluations", 128 + gen_conv::controller_constants().len() as u64);
+            out.stat("nontrivial", 128);
+        }
         "cc-roundtrip" => scan::roundtrips(&mut out, "cc", seed, if tier == "thorough" { 2_000_000 } else { 100_000 }),
         "pn-roundtrip" => scan::roundtrips(&mut out, "pn", seed, if tier == "thorough" { 2_000_000 } else { 100_000 }),
         // factory constructors: named (block digests), generic, test_util shorthands
